@@ -282,6 +282,9 @@ func TestVerif_C04(t *testing.T) {
 		if err := ev.LoadReplay(&c); err != nil {
 			t.Fatal(err)
 		}
+		if c.Cfg.SenderCount == 0 {
+			return // a replay file of the end-to-end part
+		}
 		for i := 0; i < 2; i++ {
 			k, w, _, steps := c04One(t, c, seqx.NewReplay(c.Trail))
 			t.Logf("replay %v cfg %+v steps %v -> %s %s", syncNames(c.Word), c.Cfg, steps, k, w)
